@@ -1,5 +1,131 @@
-"""C09 - Raw images and sub-images reproduce their pixel data exactly  (metadata; generators live here and/or in props/C09_*.py parts)"""
+"""C09 - Raw images and sub-images reproduce their pixel data exactly"""
+from common import *
+import re
+
 CLAIMED = False   # set True by the owner once ./check C09 passes with real theorems
 LEVEL = 'proof'
 LEVEL_TEXT = 'TODO'
 LEVEL_NOTE = 'TODO'
+RULE = 'TODO'
+EXHAUSTIVE = {'quick': False, 'thorough': False}
+ASSUMPTIONS = []
+TRUSTED = []
+PARTIAL = []
+
+BPPS = [1, 2, 4, 8, 16, 24, 32]
+
+
+def stride(w, bpp):
+    return (w * bpp + 7) // 8
+
+
+def sub_area(rng, pw, ph):
+    """an area relative to a drawable of size pw x ph: inside / overlapping / outside / zero sized / whole / larger"""
+    k = rng.random()
+    if k < 0.40 and pw > 0 and ph > 0:          # fully inside
+        x = rng.randrange(pw)
+        y = rng.randrange(ph)
+        return (x, y, rng.randrange(1, pw - x + 1), rng.randrange(1, ph - y + 1))
+    if k < 0.65:                                  # overlapping an edge or a corner (or inside, or outside)
+        return (rng.randrange(-3, pw + 2), rng.randrange(-3, ph + 2), rng.randrange(0, pw + 5), rng.randrange(0, ph + 5))
+    if k < 0.75:                                  # outside
+        w, h = rng.randrange(1, 5), rng.randrange(1, 5)
+        x = rng.choice([pw + rng.randrange(0, 3), -w - rng.randrange(0, 3), rng.randrange(-2, pw + 2)])
+        y = rng.choice([ph + rng.randrange(0, 3), -h - rng.randrange(0, 3)]) if 0 <= x < pw or rng.random() < 0.5 else rng.randrange(-2, ph + 2)
+        return (x, y, w, h)
+    if k < 0.85:                                  # zero sized
+        w, h = rng.choice([(0, 0), (0, rng.randrange(1, 4)), (rng.randrange(1, 4), 0)])
+        return (rng.randrange(-1, pw + 2), rng.randrange(-1, ph + 2), w, h)
+    if k < 0.93:                                  # the whole parent
+        return (0, 0, pw, ph)
+    return (-rng.randrange(0, 3), -rng.randrange(0, 3), pw + rng.randrange(0, 5), ph + rng.randrange(0, 5))   # larger
+
+
+def clip(region, a):
+    """region (x0,y0,x1,y1) in raw image coordinates, a relative to its top left -> new region"""
+    x0, y0, x1, y1 = region
+    ax, ay = x0 + a[0], y0 + a[1]
+    nx0, ny0, nx1, ny1 = max(x0, ax), max(y0, ay), min(x1, ax + a[2]), min(y1, ay + a[3])
+    if nx0 >= nx1 or ny0 >= ny1:
+        return (nx0, ny0, nx0, ny0)
+    return (nx0, ny0, nx1, ny1)
+
+
+def draw_case(rng, pre, bpp, alt, w, h, nsub, tk=None):
+    seed = rng.randrange(2 ** 30)
+    region = (0, 0, w, h)
+    subs = []
+    for _ in range(nsub):
+        a = sub_area(rng, region[2] - region[0], region[3] - region[1])
+        subs += list(a)
+        region = clip(region, a)
+    sw, sh = region[2] - region[0], region[3] - region[1]
+    mode = 1 if rng.random() < 0.25 else 0
+    k = rng.random()
+    if k < 0.1:
+        ox, oy = rng.choice([-1, 1]) * rng.randrange(2 ** 20 - 40, 2 ** 20), rng.choice([-1, 1]) * rng.randrange(2 ** 20 - 40, 2 ** 20)
+    elif k < 0.3:
+        ox, oy = 0, 0
+    else:
+        ox, oy = rng.randrange(-12, 13), rng.randrange(-12, 13)
+    # where the image lands (top left), to place the target box around / across it
+    tx, ty = (ox - (max(sw, 1) - 1) // 2, oy - (max(sh, 1) - 1) // 2) if mode == 1 else (ox, oy)
+    k = rng.random()
+    if k < 0.55:      # target contains the whole image with a margin
+        bb = (tx - 2, ty - 2, sw + 4, sh + 4)
+    elif k < 0.9:     # target cuts the image
+        bb = (tx + rng.randrange(-3, sw + 2), ty + rng.randrange(-3, sh + 2), rng.randrange(0, sw + 4), rng.randrange(0, sh + 4))
+    elif k < 0.95:    # empty target
+        bb = (tx, ty, 0, rng.randrange(0, 3))
+    else:             # target elsewhere
+        bb = (tx + sw + 1, ty - 1, 3, sh + 2)
+    if tk is None:
+        tk = rng.randrange(3)
+    return J(pre + 'img_draw', bpp, alt, w, h, stride(w, bpp) * h, seed, mode, ox, oy, tk, *bb, nsub, *subs)
+
+
+def sizes(tier, rng):
+    N = 9 if tier == 'quick' else 16
+    for w in range(N + 1):
+        for h in range(N + 1):
+            yield w, h
+    # wider rows (several bytes per row at 1 bpp), few rows
+    for _ in range(60 if tier == 'quick' else 600):
+        yield rng.randrange(N + 1, 71), rng.randrange(1, 6)
+
+
+def gen(tier, rng, pre):
+    reps = 1 if tier == 'quick' else 2
+    for w, h in sizes(tier, rng):
+        for bpp in BPPS:
+            for alt in (0, 1):
+                exact = stride(w, bpp) * h
+                # ImageRaw::new with right and wrong lengths
+                lens = {exact, exact + 1, max(exact - 1, 0), (w * h * bpp + 7) // 8, (w * bpp // 8) * h, rng.randrange(0, exact + 9)}
+                for ln in sorted(lens):
+                    yield J(pre + 'img_new', bpp, alt, w, h, ln)
+                yield J(pre + 'img_pixels', bpp, alt, w, h, exact, rng.randrange(2 ** 30))
+                for _ in range(reps):
+                    yield draw_case(rng, pre, bpp, alt, w, h, 0)
+                    yield draw_case(rng, pre, bpp, alt, w, h, 1, tk=2)
+                    yield draw_case(rng, pre, bpp, alt, w, h, 1)
+                    yield draw_case(rng, pre, bpp, alt, w, h, 2)
+                    yield draw_case(rng, pre, bpp, alt, w, h, rng.choice([2, 3, 3]), tk=2)
+    # a wrong length reaches img_draw / img_pixels as `err n` on both sides
+    if pre == '':
+        for _ in range(50):
+            w, h, bpp = rng.randrange(1, 9), rng.randrange(1, 9), rng.choice(BPPS)
+            yield J('img_pixels', bpp, rng.randrange(2), w, h, stride(w, bpp) * h + rng.choice([-1, 1, 2]), 7)
+
+
+def trivial(line, res):
+    """empty pixel map / nothing drawn / none"""
+    return res in ('', 'none', '0') or ' MAP  ' in res + ' ' and re.search(r' MAP ( |$)', res) is not None
+
+
+def cases(tier, rng):
+    yield from gen(tier, rng, '')
+
+
+def search(tier, rng):
+    yield from gen(tier, rng, 'p_')
